@@ -1793,17 +1793,30 @@ func init() { Registry["w2.disruptpair"] = scenDisruptPair }
 func scenSelfRemoveRead(x *Ctx) {
 	r := x.R
 	typ := x.P.Str("read", "LR")
-	all, a, ok := x.startStatic(4)
+	nv := 4
+	if r.Intn(3) == 0 {
+		nv = 2 // the new configuration has a single voter: the old leader is cut off alone
+	}
+	all, a, ok := x.startStatic(nv)
 	if !ok {
 		return
 	}
 	x.Writes(1, a, 3, time.Second)
 	rest := x.others(a)
-	b := pick(r, rest)
-	cd := minus(rest, []string{b})
+	side := []string{a}
+	cd := rest
+	if nv == 4 {
+		b := pick(r, rest)
+		side = append(side, b)
+		cd = minus(rest, []string{b})
+	}
+	held := map[string]bool{}
+	for _, id := range cd {
+		held[id] = true
+	}
 	gate := simnet.NewGate()
-	x.C.Net.AddRule(&simnet.Rule{Name: "hold-acks-of-c-and-d", Gate: gate, Match: func(m *mon.Msg, reply bool) bool {
-		return reply && m.Kind == "AE" && m.From == a && (m.To == cd[0] || m.To == cd[1])
+	x.C.Net.AddRule(&simnet.Rule{Name: "hold-acks-of-the-others", Gate: gate, Match: func(m *mon.Msg, reply bool) bool {
+		return reply && m.Kind == "AE" && m.From == a && held[m.To]
 	}})
 	x.Step("leader %s removes itself; the acknowledgements of %v are held", a, cd)
 	done := make(chan struct{})
@@ -1830,8 +1843,8 @@ func scenSelfRemoveRead(x *Ctx) {
 		x.Inconclusive("%s is no longer leader", a)
 		return
 	}
-	x.Step("cut {%s,%s} off from %v; %v elect a leader under the new configuration and write", a, b, cd, cd)
-	x.C.Net.Partition([]string{a, b}, cd)
+	x.Step("cut %v off from %v; %v elect a leader under the new configuration and write", side, cd, cd)
+	x.C.Net.Partition(side, cd)
 	l2 := x.C.WaitLeaderAmong(cd, 6*x.ET()+2*time.Second)
 	if l2 == "" {
 		x.Inconclusive("%v elected no leader", cd)
@@ -1841,10 +1854,10 @@ func scenSelfRemoveRead(x *Ctx) {
 		x.Inconclusive("no write acknowledged by the new leader")
 		return
 	}
-	x.Step("reads at %s, which only %s answers", a, b)
+	x.Step("reads at %s, which at most %v answer", a, minus(side, []string{a}))
 	w := x.readsAsync(7, a, typ, 6, 150*time.Millisecond, 5*time.Millisecond)
 	w()
-	x.NT("read-at-self-removing-leader")
+	x.NT(fmt.Sprintf("read-at-self-removing-leader-of-%d", nv))
 	x.Step("heal")
 	x.C.Net.Heal()
 	<-done
